@@ -99,7 +99,9 @@ def check_case(case):
     out = []
     rows = build(case)
     df = pd.DataFrame(rows, columns=["chromosome", "start", "end", "gene", "log2", "weight"])
-    cnarr = CopyNumArray(df, {"sample_id": "s"})
+    from vk import gen
+
+    cnarr = CopyNumArray(gen.relabel(df, gen.spec_for(case)), {"sample_id": "s"})
     segs = segmentation.do_segmentation(cnarr, case["method"])
     ctx = f"method {case['method']}, sd {case['sd']}, seed {case['seed']}"
     for c in case["chroms"]:
